@@ -7,6 +7,7 @@ import (
 	"time"
 
 	netty "github.com/go-netty/go-netty"
+	"github.com/go-netty/go-netty/transport"
 	"github.com/go-netty/go-netty/verifsim/simnet"
 	"github.com/go-netty/go-netty/verifsim/simrt"
 )
@@ -178,6 +179,7 @@ type Rig struct {
 	Async  bool
 	Q      int
 	Until  bool
+	Buffered bool // bytes reach the simulated connection only when the buffering wrapper flushes
 	ServeInv, ServeRet int64
 }
 
@@ -186,9 +188,15 @@ type ChanCfg struct {
 	Async bool
 	Q     int
 	Until bool
+	WBuf  int // > 0: the channel's transport is the real buffering wrapper transport.NewTransport(conn, 0, WBuf)
 }
 
 func (c ChanCfg) String() string {
+	if c.WBuf > 0 {
+		d := c
+		d.WBuf = 0
+		return fmt.Sprintf("%s over a %d-byte write-buffered transport", d.String(), c.WBuf)
+	}
 	if !c.Async {
 		return "sync"
 	}
@@ -220,7 +228,12 @@ func (e *Env) NewRig(cc ChanCfg, execDelay bool, handlers ...netty.Handler) *Rig
 	}
 	r.Pl.AddLast(r.Probe)
 	r.Ctx, r.Cancel = context.WithCancel(context.Background())
-	r.Ch = cc.Factory()(1, r.Ctx, r.Pl, r.Conn, r.X)
+	var tr transport.Transport = r.Conn
+	if cc.WBuf > 0 {
+		tr = transport.NewTransport(r.Conn, 0, cc.WBuf)
+		r.Buffered = true
+	}
+	r.Ch = cc.Factory()(1, r.Ctx, r.Pl, tr, r.X)
 	return r
 }
 
